@@ -537,6 +537,7 @@ pub fn threads_case(rng: &mut Rng, small: bool, out: &mut CaseOut) {
     let mut handles = Some(handles);
     let t0 = Instant::now();
     let mut bad = false;
+    let mut ran_dry = false;
     'outer: loop {
         if t0.elapsed() > timeout {
             out.inconclusive("multi-reader-threads: wall-clock watchdog");
@@ -549,7 +550,9 @@ pub fn threads_case(rng: &mut Rng, small: bool, out: &mut CaseOut) {
             joined = true;
         }
         // Late adds, a few at a time, as the run progresses.
-        if !late.is_empty() && sh.start.load(Ordering::SeqCst) && (total % 3 == 0 || joined) {
+        // (Also whenever the last poll ran dry: in lock-step the items in flight may all belong to
+        // streams that are not added yet.)
+        if !late.is_empty() && sh.start.load(Ordering::SeqCst) && (total % 3 == 0 || joined || ran_dry) {
             let i = late.pop().unwrap();
             mr.add(SStream(scripts[i].clone()));
             added += 1;
@@ -560,6 +563,7 @@ pub fn threads_case(rng: &mut Rng, small: bool, out: &mut CaseOut) {
         let r = Pin::new(&mut mr).poll_next(&mut cx);
         // The first poll stored a waker in every stream added so far: let the producers loose.
         sh.start.store(true, Ordering::SeqCst);
+        ran_dry = r.is_pending();
         match r {
             Poll::Ready(Some(x)) => {
                 out.events += 1;
@@ -582,6 +586,10 @@ pub fn threads_case(rng: &mut Rng, small: bool, out: &mut CaseOut) {
                 out.count("ready-none-before-late-add");
             }
             Poll::Pending => {
+                if !late.is_empty() {
+                    // Do not park while streams wait to be added.
+                    continue;
+                }
                 if !pw.notified.load(Ordering::SeqCst) {
                     parks += 1;
                     let wait = if joined { Duration::from_secs(2) } else { Duration::from_millis(200) };
